@@ -165,9 +165,9 @@ def exprAnswer (text : Str) : String :=
         let incons := if consistent then "" else " | MODEL-INCONSISTENT token-level parse differs"
         -- every tree of the grammar model has the shape the property theorem assumes (`YaccOut`)
         let incons := if YaccOut e then incons else incons ++ " | MODEL-INCONSISTENT YaccOut fails"
-        -- the two facts the property theorem takes as hypotheses without proof
-        let incons := if DursInRange e && SetsReadBack e then incons
-          else incons ++ " | MODEL-INCONSISTENT DursInRange/SetsReadBack fails"
+        -- the fact the property theorem takes as a hypothesis without proof
+        let incons := if DursInRange e then incons
+          else incons ++ " | MODEL-INCONSISTENT DursInRange fails"
         "t1 " ++ dump e ++ " | pr " ++ pr ++ " | t2 " ++ t2 ++ incons
 
 def step (line : String) : String :=
